@@ -424,7 +424,8 @@ def is_(a, b):
         if a is None or b is None:
             return False
         if isinstance(a, SRef) and isinstance(b, SRef):
-            return a == b
+            # identity is sameness of the reference, whatever == a contract's reference type defines (equal packages need not be identical)
+            return SBool(a.t == b.t) if a.kind.name == b.kind.name else False
         if a is b:
             return True
         if isinstance(a, SBool) and isinstance(b, bool):
